@@ -501,16 +501,23 @@ func runItem(b *builder, it planItem, outRoot string, deadline float64) *itemRes
 		// exhaustion ...) cannot be recovered by the worker.  If it was raised with a library frame
 		// innermost, the run that was executing is a candidate violation, decided by replaying that
 		// run from its seed in a fresh process; anything else stays an infrastructure error.
-		if msg, site := runtimeFatal(fullErr[k]); site != "" {
+		msg, site := runtimeFatal(fullErr[k])
+		class := "runtime-fatal"
+		if site == "" {
+			if hs := hungSite(fullErr[k]); hs != "" {
+				msg, site, class = "the call does not return", hs, "does-not-terminate"
+			}
+		}
+		if site != "" {
 			dead[k] = true
 			res.crashed = true
 			if ncrash++; ncrash > 3 {
 				continue
 			}
 			idx := crashedIndex(res.fplists[k], uint64(k), uint64(nw))
-			path := writeCrashReplay(b, it, outDir, idx, msg, site, fullErr[k])
-			res.violations = append(res.violations, found{core.Violation{Property: currentProperty, Class: "runtime-fatal", Key: site + ": " + msg,
-				Detail: "the Go runtime stopped the process inside the library: fatal error: " + msg + " (in " + site + ")"}, path, idx})
+			path := writeCrashReplay(b, it, outDir, idx, class, msg, site, fullErr[k])
+			res.violations = append(res.violations, found{core.Violation{Property: currentProperty, Class: class, Key: site + ": " + msg,
+				Detail: crashDetail(class, msg, site)}, path, idx})
 			res.crashed = true
 			dead[k] = true
 			continue
@@ -635,20 +642,69 @@ func crashedIndex(fpl string, start, stride uint64) uint64 {
 	return last + stride
 }
 
-func writeCrashReplay(b *builder, it planItem, outDir string, idx uint64, msg, site, out string) string {
+func crashDetail(class, msg, site string) string {
+	if class == "does-not-terminate" {
+		return "a library call made by the workload did not return within the worker's real-time limit (innermost library frame: " + site + ")"
+	}
+	return "the Go runtime stopped the process inside the library: fatal error: " + msg + " (in " + site + ")"
+}
+
+// hungSite: the worker's watchdog fired and dumped all stacks; returns the innermost library frame of a
+// goroutine that is running (not parked in the scheduler's pipe read, not the watchdog), "" if there is none.
+func hungSite(out string) string {
+	i := strings.Index(out, "vsim: WATCHDOG-STACKS\n")
+	if i < 0 {
+		return ""
+	}
+	const lib = "github.com/oasisprotocol/curve25519-voi/"
+	for _, blk := range strings.Split(out[i:], "\n\n") {
+		lines := strings.Split(strings.TrimSpace(blk), "\n")
+		if len(lines) < 2 || !strings.HasPrefix(lines[0], "goroutine ") {
+			continue
+		}
+		if !(strings.Contains(lines[0], "[running") || strings.Contains(lines[0], "[runnable")) || strings.Contains(blk, "main.init.0.func1") {
+			continue
+		}
+		for _, ln := range lines[1:] {
+			if strings.HasPrefix(ln, "\t") || ln == "" {
+				continue
+			}
+			fn := ln
+			if k := strings.LastIndex(fn, "("); k > 0 {
+				fn = fn[:k]
+			}
+			if strings.HasPrefix(fn, "runtime.") || strings.HasPrefix(fn, "internal/") || strings.HasPrefix(fn, "math/") || strings.HasPrefix(fn, "crypto/") {
+				continue
+			}
+			if strings.HasPrefix(fn, lib) {
+				return strings.TrimPrefix(fn, lib)
+			}
+			break
+		}
+	}
+	return ""
+}
+
+func writeCrashReplay(b *builder, it planItem, outDir string, idx uint64, class, msg, site, out string) string {
 	v := variants[it.variant]
-	rp := &core.Replay{Property: currentProperty, Phase: it.workload, Class: "runtime-fatal", Key: site + ": " + msg,
-		Detail:   "the Go runtime stopped the process inside the library: fatal error: " + msg + " (in " + site + ")",
+	rp := &core.Replay{Property: currentProperty, Phase: it.workload, Class: class, Key: site + ": " + msg,
+		Detail:   crashDetail(class, msg, site),
 		BaseSeed: baseSeed, RunIndex: idx, RunSeed: core.Mix(baseSeed, core.MixS(it.workload), idx), Tier: tier,
 		Build:    core.BuildInfo{Variant: it.variant, Tags: v.tags, Godebug: v.godebug, Race: v.race, Instrumented: v.instr},
 		FromSeed: true}
 	rp.SetRec(core.Rec{})
 	i := strings.Index(out, "fatal error: ")
+	if class == "does-not-terminate" {
+		i = strings.Index(out, "vsim: WATCHDOG:")
+	}
+	if i < 0 {
+		i = 0
+	}
 	rp.Trace = strings.Split(tail(out[i:], 6000), "\n")
 	if len(rp.Trace) > 60 {
 		rp.Trace = rp.Trace[:60]
 	}
-	path := filepath.Join(outDir, fmt.Sprintf("replay-%s-%s-%d-runtime-fatal-%04x.json", currentProperty, it.workload, rp.RunSeed, core.MixS(rp.Key)&0xffff))
+	path := filepath.Join(outDir, fmt.Sprintf("replay-%s-%s-%d-%s-%04x.json", currentProperty, it.workload, rp.RunSeed, class, core.MixS(rp.Key)&0xffff))
 	if err := core.WriteJSON(path, rp); err != nil {
 		infra("%v", err)
 	}
@@ -687,6 +743,14 @@ func replayCrash(b *builder, path string, rp *core.Replay, journal string) (bool
 	case <-time.After(300 * time.Second):
 		c.Process.Kill()
 		return false, ""
+	}
+	if rp.Class == "does-not-terminate" {
+		hs := hungSite(eb.String())
+		if hs == "" {
+			return false, ""
+		}
+		// the innermost frame of a spinning call differs from dump to dump: the class and a library frame decide
+		return true, hs + ": the call does not return"
 	}
 	msg, site := runtimeFatal(eb.String())
 	if site == "" {
@@ -1104,6 +1168,13 @@ func confirm(b *builder, v found) (string, bool) {
 	if v.Class == "runtime-fatal" {
 		return confirmCrash(b, v)
 	}
+	if v.Class == "does-not-terminate" && strings.Contains(v.Replay, "-does-not-terminate-") {
+		if rp, err := core.ReadReplay(v.Replay); err == nil && rp.FromSeed {
+			// a hang found by the worker's watchdog: one replay from the seed (it takes the watchdog's limit again)
+			ok, _ := replayCrash(b, v.Replay, rp, "")
+			return v.Replay, ok
+		}
+	}
 	rp, err := core.ReadReplay(v.Replay)
 	if err != nil {
 		infra("%v", err)
@@ -1197,7 +1268,7 @@ func runReplay(path string) int {
 		infra("%v", err)
 	}
 	b := newBuilder()
-	if rp.Class == "runtime-fatal" {
+	if rp.Class == "runtime-fatal" || (rp.Class == "does-not-terminate" && rp.FromSeed) {
 		ok, got := replayCrash(b, path, rp, "")
 		if got != "" {
 			fmt.Printf("  observed %s/runtime-fatal/%s\n", rp.Property, got)
